@@ -12,14 +12,14 @@ TREE = json.load(open(os.path.join(SPEC, "tree_model.json")))
 
 
 def cfg(writers, closers=None, qsize=2, until=True, serve="pre", reads=0, maxfaults=0,
-        maxpolls=10, nsenders=None, fixclosed=None, fixdrain=None, pcancel=False, swallow=False):
+        maxpolls=10, nsenders=None, fixclosed=None, fixdrain=None, pcancel=False, swallow=False, trackbufs=False, clone=True, recyclelate=True):
     """writers: {"W1": [("W1","bg"), ...]}; closers: {"C1": "e1"}"""
     closers = closers or {}
     nops = sum(sum(int(o[2]) if len(o) > 2 else 1 for o in v) for v in writers.values())
     return {
         "writers": {w: [list(o) for o in ops] for w, ops in writers.items()},
         "closers": dict(closers), "qsize": qsize, "until": until, "serve": serve, "reads": reads,
-        "maxfaults": maxfaults, "maxpolls": maxpolls, "pcancel": pcancel, "swallow": swallow,
+        "maxfaults": maxfaults, "maxpolls": maxpolls, "pcancel": pcancel, "swallow": swallow, "trackbufs": trackbufs, "clone": clone, "recyclelate": recyclelate,
         "nsenders": nsenders if nsenders is not None else nops + 1,
         "fixclosed": TREE["FixClosed"] if fixclosed is None else fixclosed,
         "fixdrain": TREE["FixDrain"] if fixdrain is None else fixdrain,
@@ -46,7 +46,8 @@ def tla_consts(c, maxpolls=None):
         "QSize": c["qsize"], "Until": c["until"],
         "MaxPolls": c["maxpolls"] if maxpolls is None else maxpolls,
         "MaxFaults": c["maxfaults"], "Serve": c["serve"], "Reads": c["reads"],
-        "FixClosed": c["fixclosed"], "FixDrain": c["fixdrain"], "PCancel": c.get("pcancel", False), "Swallow": c.get("swallow", False),
+        "FixClosed": c["fixclosed"], "FixDrain": c["fixdrain"], "PCancel": c.get("pcancel", False), "Swallow": c.get("swallow", False), "TrackBufs": c.get("trackbufs", False),
+        "CloneOnWrite": c.get("clone", True), "RecycleLate": c.get("recyclelate", True),
     }
 
 
@@ -73,7 +74,7 @@ def go_case(c, cid, rnd, schedule=None, rand=None, sizes=None, props=None, notra
         "closers": [{"name": k, "arg": v} for k, v in sorted(c["closers"].items())],
         "serve": c["serve"], "reads": c["reads"], "max_faults": c["maxfaults"],
         "senders": senders(c), "seed": rnd.randrange(1, 1 << 30), "max_steps": max_steps,
-        "no_trace": notrace, "codec": codec, "swallow": c.get("swallow", False),
+        "no_trace": notrace, "codec": codec, "swallow": c.get("swallow", False), "scribble": c.get("trackbufs", False),
     }
     if schedule is not None:
         case["schedule"] = schedule
@@ -118,7 +119,7 @@ def node_sig(label):
     return (tuple(sorted(pcs.items())), wr)
 
 
-LABEL_KINDS = {"Step": "step", "Fault": "fault", "CtxCancel": "cancel", "ParentCancel": "pcancel"}
+LABEL_KINDS = {"Step": "step", "Fault": "fault", "CtxCancel": "cancel", "ParentCancel": "pcancel", "PoolUser": "pooluser", "Scribble": "scribble"}
 
 
 def label_move(lab):
@@ -151,7 +152,7 @@ def walk_events(init, adj, sig, events):
     walked = []
     for e in events:
         a = e["a"]
-        kind = "cancel" if a == "env.cancel" else "pcancel" if a == "env.pcancel" else ("fault" if a.endswith("!fail") else "step")
+        kind = {"env.cancel": "cancel", "env.pcancel": "pcancel", "env.pooluser": "pooluser"}.get(a, "fault" if a.endswith("!fail") else "step")
         cands = [(lab, v) for lab, v in adj.get(cur, []) if label_move(lab) == [kind, e["p"]]]
         if not cands:
             return walked, False
